@@ -287,6 +287,38 @@ def primitive_checks(ctx):
     ctx.floor(rule, 5)
 
 
+
+def wrapper_build_result(ctx, rule):
+    """A wrapper whose _parse hands on the inner parse result unchanged hands on the inner *build* result unchanged as well: what the inner
+    construct derived while building (defaults, rebuilt lengths, constants, RawCopy records) is what the enclosing structure stores under the
+    member's name, so later members see the same record whichever wrapper sits in between (e.g. the sized and the streaming form of Bitwise)."""
+    M = ctx.model
+    n = 0
+    sc = N.selfattr("subcon")
+    for ci in M.construct_classes():
+        if ci.relpath.endswith("debug.py") or "_build" not in ci.methods or "_parse" not in ci.methods:
+            continue
+        fp, pp = own_method_paths(ctx, ci.name, "_parse")
+        through = False
+        for p in pp:
+            subs = [e for e in p.events if e.kind == "SUB" and e["m"] in ("_parsereport", "_parse") and e["target"] == sc and not e.depth]
+            if p.returns and len(subs) == 1 and p.retval == subs[0]["res"]:
+                through = True
+        if not through:
+            continue
+        fb, pb = own_method_paths(ctx, ci.name, "_build")
+        ok, seen = True, 0
+        for p in pb:
+            subs = [e for e in p.events if e.kind == "SUB" and e["m"] == "_build" and e["target"] == sc]
+            if p.returns and len(subs) == 1:
+                seen += 1
+                ok = ok and p.retval == subs[0]["res"]
+        if not seen:
+            continue
+        n += 1
+        ctx.ob(rule, fb, ok, "%s._build returns the inner construct's build result (its _parse returns the inner parse result)" % ci.name, key="%s build result handed on" % ci.name)
+    return n
+
 def run(ctx):
     M = ctx.model
     # R1: every NEWCTX in the package
@@ -338,7 +370,8 @@ def run(ctx):
     C17.entry_delegation(ctx, "C07.R3")
     unused_parameters(ctx, "C07.R3", lambda f: f.cls is not None and f.cls.name in ("Construct", "Compiled") and not f.name.startswith("_"))      # the byte/file entry points hand the same keyword arguments (_params) on as the stream entry points
     member_store_checks(ctx)
-    ctx.floor("C07.R4", 15)
+    wrapper_build_result(ctx, "C07.R4")
+    ctx.floor("C07.R4", 15 + 12)
     index_checks(ctx)
     primitive_checks(ctx)
 
